@@ -1078,7 +1078,12 @@ pub fn c16(ctx: &mut Ctx) {
             ctx.count("single_line_skipped");
             continue;
         }
-        let mut o2 = o1.clone();
+        // the second options are arbitrary (the property restricts only the first): every
+        // separator, splitter, algorithm, break_words setting and ending; one time in three they
+        // differ from the first only in width, ending and algorithm
+        let mut o2 = if ctx.rng.chance(1, 3) { o1.clone() } else { gen::options(&mut ctx.rng, 0) };
+        o2.ii = o1.ii.clone();
+        o2.si = o1.si.clone();
         o2.width = ctx.rng.below(16);
         o2.crlf = ctx.rng.chance(1, 2);
         o2.alg = if cfg!(feature = "full") && ctx.rng.chance(1, 2) { 'o' } else { 'f' };
